@@ -30,9 +30,9 @@ def enc_attrs(a):
     return [a['enter'], a['exit'], a['onfinal'], bool(a['final']), ign_sx, a['initial']]
 
 
-# A State OBJECT of a nested state given to add_transition is registered under its bare local name (state.name):
-# the model is handed what the library does; reported as a finding (object vs name is NOT equivalent for nested states).
-NESTED_OBJ_IS_BARE_NAME = True
+# A State OBJECT of a nested state given to add_transition used to be registered under its bare local name
+# (state.name); fixed in /repo (983083c: named by its path), so object and name are equivalent on every level.
+NESTED_OBJ_IS_BARE_NAME = False
 
 
 def model_ts(ts):
@@ -199,6 +199,24 @@ def gen_case(rng, i=0):
     ntop = r.randint(1, 3)
     tops = [g.sdef(1) for _ in range(ntop)]
     ne = r.randint(1, 3)
+    # names reused on several levels: some nested states are called like a top-level state or like a state of
+    # another branch (only siblings have to differ); a relative name then reads like a global one
+    pool = [t['name'] for t in tops]
+    reused = set()
+
+    def rename(d):
+        for c in d['children']:
+            pool.append(c['name'])
+        for c in d['children']:
+            if r.random() < 0.4:
+                new = r.choice(pool)
+                if new != c['name'] and new not in [x['name'] for x in d['children']]:
+                    d['initial'] = [new if x == c['name'] else x for x in d['initial']]
+                    c['name'] = new
+                    reused.add(new)
+            rename(c)
+    for t in tops:
+        rename(t)
 
     def all_paths(ds, prefix=()):
         out = []
@@ -372,21 +390,15 @@ def gen_case(rng, i=0):
             known += [[n] + p for p in all_paths(kept)] + [[n]]
         elif it[0] == 'gtrans':
             ts = [[it[1], g.trans(known, 0)] for _ in range(r.randint(1, 3))] if known else []
-            # nested states referenced by their State object: the same in both scripts (see NESTED_OBJ_IS_BARE_NAME)
-            for _, t in ts:
-                if len(t['src']) > 1 and r.random() < 0.25:
-                    t['src_obj'] = True
-                if t['dst'] is not None and len(t['dst']) > 1 and r.random() < 0.25:
-                    t['dst_obj'] = True
             if ts:
                 for script, sr in ((A, rA), (B, rB)):
-                    # top-level states: by name or by object, per script (equivalent)
+                    # states of any level: by name or by State object, per script (equivalent)
                     mine = []
                     for e, t in ts:
                         t = dict(t)
-                        if len(t['src']) == 1 and sr.random() < 0.3:
+                        if sr.random() < 0.3:
                             t['src_obj'] = True
-                        if t['dst'] is not None and len(t['dst']) == 1 and sr.random() < 0.3:
+                        if t['dst'] is not None and sr.random() < 0.3:
                             t['dst_obj'] = True
                         mine.append([e, t])
                     if sr.random() < 0.5:
@@ -399,6 +411,12 @@ def gen_case(rng, i=0):
             x = r.random()
             sp = [] if x < 0.35 or not known else r.choice(known)
             dp = [] if x > 0.65 or not known else r.choice(known)
+            amb = [p for p in known if p[-1] in reused]
+            if amb and r.random() < 0.5:
+                # dest-only / source-only filters on names that occur on several levels
+                p = r.choice(amb)
+                q = r.choice([p, [p[-1]]])
+                sp, dp = ([], q) if r.random() < 0.6 else (q, [])
             if r.random() < 0.3 and known:
                 # a path relative to some nested scope (exercises the scope-wise matching of the library)
                 p = r.choice(known)
